@@ -13,8 +13,8 @@ import DigModel.Proofs.Parse
   * `C12_once`: a decorator has at most one successful execution per resolver call, none once it has run
     (C02_once), and a decorator that ran is a no-op (C02_deco_cached);
   * `C12_one`: an accepted Decorate never replaces an existing decorator of the scope: every key it
-    registers was undecorated in that scope before; a Decorate that is rejected changes nothing but
-    orphan group-parameter graph nodes (`GhOnly`);
+    registers was undecorated in that scope before; a Decorate that is rejected changes nothing at all
+    (the state afterwards equals the state before);
   * `C12_local`: `paramSingle.Build` consults decorators only in scopes on the path from the requesting scope
     to the root (`findDeco` ranges over `ancestors`), so scopes outside a decorator's subtree never see it.
   Group decoration and "receives the next outer decorator's output" at history level are covered by the
@@ -50,31 +50,33 @@ theorem C12_one (ctx : Ctx) (fn : Fn) (st : St) (i s : Nat) (cb info : Bool) :
     (((apiDecorate ctx fn st i s cb info).2.v matches .ok) →
       ∀ k, aget (((apiDecorate ctx fn st i s cb info).1).scope s).decorators k ≠ aget (st.scope s).decorators k →
         aget (st.scope s).decorators k = none) ∧
-    ((¬ ((apiDecorate ctx fn st i s cb info).2.v matches .ok)) → GhOnly st (apiDecorate ctx fn st i s cb info).1) := by
+    ((¬ ((apiDecorate ctx fn st i s cb info).2.v matches .ok)) → (apiDecorate ctx fn st i s cb info).1 = st) := by
   unfold apiDecorate
   cases fn.nonfunc with
-  | some _ => exact ⟨fun h => by simp at h, fun _ => GhOnly.refl st⟩
+  | some _ => exact ⟨fun h => by simp at h, fun _ => rfl⟩
   | none =>
     simp only
     have hp := ghOnly_parseParams ctx.env st s fn
+    have hrb := parse_rollback_eq ctx.env st s fn
     cases hpp : parseParams ctx.env st s fn with
     | mk r w =>
-      rw [hpp] at hp
+      rw [hpp] at hp hrb
+      simp only at hrb
       cases r with
-      | error e => exact ⟨fun h => by simp at h, fun _ => hp⟩
+      | error e => exact ⟨fun h => by simp at h, fun _ => hrb⟩
       | ok params =>
         simp only
         cases newResultList ctx.env {} fn with
-        | error e => exact ⟨fun h => by simp at h, fun _ => hp⟩
+        | error e => exact ⟨fun h => by simp at h, fun _ => hrb⟩
         | ok results =>
           simp only
           cases resultKeys ctx.env (slotResults results) with
-          | error e => exact ⟨fun h => by simp at h, fun _ => hp⟩
+          | error e => exact ⟨fun h => by simp at h, fun _ => hrb⟩
           | ok keys =>
             simp only
             by_cases hcond : (hasDup keys || keys.any fun k => (aget (w.scope s).decorators k).isSome) = true
             · rw [if_pos hcond]
-              exact ⟨fun h => by simp at h, fun _ => hp⟩
+              exact ⟨fun h => by simp at h, fun _ => hrb⟩
             · rw [if_neg hcond]
               refine ⟨fun _ k hk => ?_, fun h => by simp at h⟩
               have hwd : (w.scope s).decorators = (st.scope s).decorators := ((hp.2.2.2.2.2.2.2 s).2.2.2.1).symm
